@@ -171,8 +171,15 @@ func optTime(opt *flow.Term, field string) pat.M {
 			return true
 		}
 		if t.Op == flow.OpIte {
-			// options.Now defaulted when nil: ite(options.Now == nil, time.Now(), options.Now.<field>)
-			return pat.Bin("==", pat.Is(fieldT(opt, "Now")), pat.Const("nil"))(t.Args[0], b) && pat.Call("time.Now")(t.Args[1], b) && want(t.Args[2], b)
+			// options.Now defaulted when nil: ite(options.Now == nil, time.Now(), options.Now.<field>),
+			// or the same with the test and the arms the other way round
+			if pat.Bin("==", pat.Is(fieldT(opt, "Now")), pat.Const("nil"))(t.Args[0], b) {
+				return pat.Call("time.Now")(t.Args[1], b) && want(t.Args[2], b)
+			}
+			if pat.Bin("!=", pat.Is(fieldT(opt, "Now")), pat.Const("nil"))(t.Args[0], b) {
+				return pat.Call("time.Now")(t.Args[2], b) && want(t.Args[1], b)
+			}
+			return false
 		}
 		if t.Op != flow.OpPhi {
 			return false
